@@ -552,7 +552,7 @@ func main() {
 			return false
 		}
 		for _, c := range s {
-			if !strings.ContainsRune("aBé世😀_", c) {
+			if !strings.ContainsRune(strings.Join(runeAlpha, ""), c) {
 				return false
 			}
 		}
@@ -571,7 +571,8 @@ func main() {
 		famB = append(famB, s)
 	})
 	// family C: identifiers w(_w)* not already in A
-	words := []string{"a", "ab", "a1", "b2c"}
+	// z, 9, 0 are the upper / lower ends of the character ranges the converters compare with
+	words := []string{"a", "ab", "a1", "b2c", "z", "za9", "y0z"}
 	var famC []string
 	for nw := 1; nw <= 3; nw++ {
 		common.Seqs(len(words), nw, func(idx []int) {
@@ -605,9 +606,9 @@ func main() {
 	r.Eval(ta.ev + tb.ev + tc.ev)
 	r.Nontrivial(ta.nt + tb.nt + tc.nt)
 
-	r.Section(map[string]any{"family": "A valid texts", "alphabet": "a B é 世 😀 _", "max_runes": maxRunes, "texts": len(famA), "cases": ta.ev, "nontrivial": ta.nt, "snake_identifiers_round_tripped": identsInA})
-	r.Section(map[string]any{"family": "B arbitrary bytes", "alphabet": "61 FF C3 A9 E4 B8 F0 9F", "max_bytes": maxBytes, "texts": len(famB), "of_which_valid_utf8": bValid, "cases": tb.ev, "nontrivial": tb.nt})
-	r.Section(map[string]any{"family": "C snake identifiers", "words": "a ab a1 b2c", "max_words": 3, "texts": len(famC), "cases": tc.ev, "nontrivial": tc.nt})
+	r.Section(map[string]any{"family": "A valid texts", "alphabet": strings.Join(runeAlpha, " "), "max_runes": maxRunes, "texts": len(famA), "cases": ta.ev, "nontrivial": ta.nt, "snake_identifiers_round_tripped": identsInA})
+	r.Section(map[string]any{"family": "B arbitrary bytes", "alphabet": fmt.Sprintf("% X", strings.Join(byteAlpha, "")), "max_bytes": maxBytes, "texts": len(famB), "of_which_valid_utf8": bValid, "cases": tb.ev, "nontrivial": tb.nt})
+	r.Section(map[string]any{"family": "C snake identifiers", "words": strings.Join(words, " "), "max_words": 3, "texts": len(famC), "cases": tc.ev, "nontrivial": tc.nt})
 
 	r.SampleL("valid", map[string]any{"call": "Sub(\"a世😀é_\", 1, 3)", "want": "世😀é"})
 	r.SampleL("valid", map[string]any{"call": "Mask(\"Bé世😀a\", \"ab\", 1, 2)", "want": "Bab😀a"})
@@ -619,7 +620,7 @@ func main() {
 	merge(r, all)
 
 	r.Assume(
-		fmt.Sprintf("small-scope: valid texts of <= %d runes over {a,B,é,世,😀,_}; byte strings of <= %d bytes over {61,FF,C3,A9,E4,B8,F0,9F}; start/length/end 0..N+2 (length also -1), display limit 0..2N+2, N = rune count (valid text) or byte count", maxRunes, maxBytes),
+		fmt.Sprintf("small-scope: valid texts of <= %d runes over {%s}; byte strings of <= %d bytes over {% X}; start/length/end 0..N+2 (length also -1) and, on texts of <= 4 runes, MaxInt32, MaxInt/2+1, MaxInt-1, MaxInt; display limit 0..2N+2 and the same extremes; N = rune count (valid text) or byte count", maxRunes, strings.Join(runeAlpha, ","), maxBytes, strings.Join(byteAlpha, "")),
 		"negative start/end/limit and length < -1 are outside the property (\"non-negative arguments\") and are not run",
 		"texts that are not valid UTF-8: only the absence of panics is demanded (results are not compared)",
 		"Mask: exact result only when start+end < rune count; otherwise only 'the first start / last end runes are kept' and valid UTF-8; the empty mask is run for absence of panics only; masks \"*\" and \"世\" (one per replaced rune) and \"ab\" (once)",
